@@ -77,7 +77,8 @@ Definition run_aconv (m : mode) (verify : bool) (tab : list (bytes * tpacket)) (
 (* ---- the models' state against the connection structs (field names regenerated from the source) ----
    Net/Framed.v: the state of a connection is its receive buffer (and the immutable transport, codec and
    verification flag).  Net/Async.v [fstate]: the tokio connection additionally keeps the outstanding
-   keep-alive reply and the packet that asked for it.  A further field would be state the models lack. *)
+   keep-alive reply and the packet that asked for it.  A further field would be state the models lack.  The codec
+   (Net/Frame.v encode / decode) is a pure function of the size mode: Codec has that one field. *)
 Require Import Coq.Strings.String Coq.Strings.Ascii.
 Definition name_bytes (s : string) : bytes := map (fun a => N_of_ascii a) (list_ascii_of_string s).
 Fixpoint names_eqb (a : list bytes) (b : list string) : bool :=
@@ -88,4 +89,5 @@ Fixpoint names_eqb (a : list bytes) (b : list string) : bool :=
   end.
 Definition state_tied : bool :=
   names_eqb gen_framed_fields_blocking ["inner"; "codec"; "buffer"; "verify_version"]%string &&
-  names_eqb gen_framed_fields_tokio ["inner"; "codec"; "buffer"; "verify_version"; "pending_reply"; "pending_packet"]%string.
+  names_eqb gen_framed_fields_tokio ["inner"; "codec"; "buffer"; "verify_version"; "pending_reply"; "pending_packet"]%string &&
+  names_eqb gen_codec_fields ["mode"]%string.
